@@ -341,6 +341,19 @@ def gen_pair_cases(pid, what, seed, tier, lmax, draws, extra):
                 c = {"id": cid, "pid": pid, "what": what, "kind": "pair", "la": la, "lb": lb, "basis": [sa, sb], "tail": True}
                 c.update(extra(rng, c))
                 out.append(c)
+            if (la * 7 + lb * 3 + seed) % 3 == 0 or tier != "quick":
+                # two DISTINCT centres 1e-3..1e-5 bohr apart, in a frame tens of bohr from the coordinate origin
+                rng = cg.rng_for(seed, pid, "near", la, lb)
+                bits = 10 if tier == "quick" else 24
+                o = cg.far_origin(rng)
+                sa = cg.shell(rng, la, K=rng.randint(1, 2), bits=bits, cen=o, hi=min(50.0, cg.exp_cap(la)))
+                sb = cg.shell(rng, lb, K=rng.randint(1, 2), bits=bits, cen=cg.add(o, cg.tiny_offset(rng)), hi=min(50.0, cg.exp_cap(lb)))
+                cid += 1
+                c = {"id": cid, "pid": pid, "what": what, "kind": "pair", "la": la, "lb": lb, "basis": [sa, sb], "near": True}
+                c.update(extra(rng, c))
+                if "origin" in c:
+                    c["origin"] = cg.add(o, cg.center(rng, 2.0))
+                out.append(c)
     return out
 
 
